@@ -276,6 +276,15 @@ func (c *channel) receiveSession(ctx context.Context) (*Session, error) {
 
 	switch state {
 	case SessionStateFinished:
+		// The receiver goroutine may have got the finished session (and moved
+		// the state) before the caller came here: hand over what it queued.
+		select {
+		case s, ok := <-c.inSesChan:
+			if ok {
+				return s, nil
+			}
+		default:
+		}
 		return nil, fmt.Errorf("receive session: cannot do in the %v state", state)
 	case SessionStateEstablished:
 		select {
